@@ -80,4 +80,8 @@ InvAccIsPreAgg == c.kind = "acc" => \A i \in 1..ANT : AccumulateIsPreAggSum([j \
 InvCdfMonotone == c.kind = "ens" => CdfMonotone(c.ens, Ths)
 InvPitRange == c.kind = "ens" => (IsNaN(Pit(c.ens, c.obs)) \/ (Ge(Pit(c.ens, c.obs), Zero) /\ Le(Pit(c.ens, c.obs), One)))
 InvExpandSound == c.kind = "exp" => ExpandSound(SubT(c), XLg(c.grid), 2, SubObs(c), c.hours, c.oleads)
+\* ---- witnesses against vacuity (tools/vacuity.py): each is the NEGATION of a lemma's antecedent and must be VIOLATED by some enumerated case ----
+W_ExpandPlaces == ~(c.kind = "exp" /\ \E p \in DOMAIN ExpandVerif(SubT(c), XLg(c.grid), 2, SubObs(c), c.hours, c.oleads) :
+                        ~IsNaN(ExpandVerif(SubT(c), XLg(c.grid), 2, SubObs(c), c.hours, c.oleads)[p]))
+W_AccWindow == ~(c.kind = "acc" /\ ~AccErr(c))
 =============================================================================
